@@ -330,63 +330,188 @@ func timerClosureChain(c *Ctx, rule string) {
 			}
 			n++
 			key := fmt.Sprintf("%s:timer#%d", funcKey(fn), n)
-			var store, cas ssa.Instruction
-			var handler ssa.Instruction
-			forEachInstr(cl, false, func(_ *ssa.Function, in ssa.Instruction) {
-				call, ok := in.(*ssa.Call)
-				if !ok {
-					return
-				}
-				cc := call.Common()
-				switch {
-				case isAtomicCall(cc, "Store"):
-					if _, f, _, ok := fieldAddrInfo(cc.Args[0]); ok && f == "reuseBuffer" && isZero(cc.Args[1]) {
-						store = in
-					}
-				case isAtomicCall(cc, "CompareAndSwap"):
-					if _, f, _, ok := fieldAddrInfo(cc.Args[0]); ok && f == "upstreamResponseReceived" {
-						cas = in
-					}
-				case cc.StaticCallee() != nil && (cc.StaticCallee().Name() == "onResponseTimeout" || cc.StaticCallee().Name() == "onPerReqTimeout"):
-					handler = in
-				}
-			})
-			if store == nil || cas == nil || handler == nil {
-				c.Fail(rule, key, cs.Instr.Pos(), "timer callback lacks one of: Store(reuseBuffer,0), CAS(upstreamResponseReceived), timeout handler")
-				continue
-			}
-			okStoreFirst := store.Block() == cl.Blocks[0]
-			// nothing touches s before the store except loading free variables
-			cleaned := guardedByFieldLoadEq(cas, "downstreamCleaned", 1, false)
-			// generation check: guard `ID == atomic.Load(&s.ID)` (NEQ false edge)
-			gen := false
-			for _, g := range guardsAt(cas.Block()) {
-				if bo, ok := g.Cond.(*ssa.BinOp); ok && (bo.Op == token.NEQ || bo.Op == token.EQL) {
-					for _, side := range []ssa.Value{bo.X, bo.Y} {
-						if call, ok := side.(*ssa.Call); ok && isAtomicCall(call.Common(), "Load") {
-							if _, f, _, ok := fieldAddrInfo(call.Common().Args[0]); ok && f == "ID" {
-								if (bo.Op == token.NEQ && !g.True) || (bo.Op == token.EQL && g.True) {
-									gen = true
-								}
-							}
-						}
+			// a bound method value as callback: the body is the method itself
+			if cl.Synthetic != "" && strings.HasSuffix(cl.Name(), "$bound") {
+				for _, in := range instrsWhere(cl, func(in ssa.Instruction) bool { _, ok := in.(*ssa.Call); return ok }) {
+					if callee := in.(*ssa.Call).Common().StaticCallee(); callee != nil && callee.Blocks != nil {
+						cl = callee
 					}
 				}
 			}
-			won := false
-			for _, g := range guardsAt(handler.Block()) {
-				if g.Cond == cas.(ssa.Value) && g.True {
-					won = true
-				}
-			}
-			c.Check(rule, key, cs.Instr.Pos(), okStoreFirst && cleaned && gen && won && instrDominates(store, cas),
-				"reuse disabled first; cleaned and generation checked before the CAS; handler only for the CAS winner",
-				fmt.Sprintf("timer callback order broken (reuse-off first=%v, cleaned-check=%v, generation-check=%v, handler behind CAS=%v): a timer of a finished request could act on the stream object now serving another request", okStoreFirst, cleaned, gen, won))
+			ok, why := timerCallbackOK(cl)
+			c.Check(rule, key, cs.Instr.Pos(), ok,
+				"reuse disabled first; cleaned and arm-time generation checked before the CAS; handler only for the CAS winner",
+				"timer callback does not follow reuse-off -> cleaned check -> generation check against the id taken when the timer was armed -> CAS -> handler ("+why+"): a timer of a finished request could act on the stream object now serving another request")
 		}
 	}
 	if n < 2 {
 		c.Unresolved(rule, fmt.Sprintf("timer closures in downstream.go (found %d)", n))
 	}
+}
+
+// timerCallbackOK analyses the callback cl together with the downStream methods it calls directly (a refactoring may
+// move the guard into a helper). G is the function that performs the CAS on upstreamResponseReceived.
+func timerCallbackOK(cl *ssa.Function) (bool, string) {
+	findCAS := func(f *ssa.Function) ssa.Instruction {
+		var cas ssa.Instruction
+		forEachInstr(f, false, func(_ *ssa.Function, in ssa.Instruction) {
+			if call, ok := in.(*ssa.Call); ok && isAtomicCall(call.Common(), "CompareAndSwap") {
+				if _, fld, _, ok := fieldAddrInfo(call.Common().Args[0]); ok && fld == "upstreamResponseReceived" {
+					cas = in
+				}
+			}
+		})
+		return cas
+	}
+	isHandler := func(in ssa.Instruction) bool {
+		call, ok := in.(*ssa.Call)
+		if !ok || call.Common().StaticCallee() == nil {
+			return false
+		}
+		n := call.Common().StaticCallee().Name()
+		return n == "onResponseTimeout" || n == "onPerReqTimeout"
+	}
+	G := cl
+	var site *ssa.Call // call of G in cl when G != cl
+	cas := findCAS(cl)
+	if cas == nil {
+		for _, in := range instrsWhere(cl, func(in ssa.Instruction) bool { _, ok := in.(*ssa.Call); return ok }) {
+			call := in.(*ssa.Call)
+			if h := call.Common().StaticCallee(); h != nil && h.Blocks != nil && h.Pkg == cl.Pkg {
+				if x := findCAS(h); x != nil {
+					G, site, cas = h, call, x
+				}
+			}
+		}
+	}
+	if cas == nil {
+		return false, "no CompareAndSwap on upstreamResponseReceived in the callback or a helper it calls"
+	}
+	// reuse off first: the first block of the callback (or of G) stores reuseBuffer=0 before anything else happens
+	storeFirst := false
+	for _, f := range []*ssa.Function{cl, G} {
+		for _, in := range f.Blocks[0].Instrs {
+			if call, ok := in.(*ssa.Call); ok && isAtomicCall(call.Common(), "Store") {
+				if _, fld, _, ok := fieldAddrInfo(call.Common().Args[0]); ok && fld == "reuseBuffer" && isZero(call.Common().Args[1]) {
+					if f == G || site == nil || instrDominates(in, site) {
+						storeFirst = true
+					}
+				}
+			}
+		}
+	}
+	if !storeFirst {
+		return false, "reuse is not switched off first"
+	}
+	if !guardedByFieldLoadEq(cas, "downstreamCleaned", 1, false) {
+		return false, "no cleaned check before the CAS"
+	}
+	// generation: guard `X == atomic.Load(&s.ID)` where X was taken when the timer was armed
+	gen, armTime := false, false
+	for _, g := range guardsAt(cas.Block()) {
+		bo, ok := g.Cond.(*ssa.BinOp)
+		if !ok || (bo.Op != token.NEQ && bo.Op != token.EQL) {
+			continue
+		}
+		for i, side := range []ssa.Value{bo.X, bo.Y} {
+			call, ok := side.(*ssa.Call)
+			if !ok || !isAtomicCall(call.Common(), "Load") {
+				continue
+			}
+			if _, f, _, ok := fieldAddrInfo(call.Common().Args[0]); !ok || f != "ID" {
+				continue
+			}
+			if !((bo.Op == token.NEQ && !g.True) || (bo.Op == token.EQL && g.True)) {
+				continue
+			}
+			gen = true
+			other := bo.Y
+			if i == 1 {
+				other = bo.X
+			}
+			armTime = capturedAtArmTime(other, G, cl, site)
+		}
+	}
+	if !gen {
+		return false, "no generation check before the CAS"
+	}
+	if !armTime {
+		return false, "the generation id it compares with is read when the timer fires, not when it was armed - the comparison can never fail"
+	}
+	// handler only for the CAS winner
+	won := false
+	for _, f := range []*ssa.Function{cl, G} {
+		for _, h := range instrsWhere(f, isHandler) {
+			for _, g := range guardsAt(h.Block()) {
+				if f == G && g.Cond == cas.(ssa.Value) && g.True {
+					won = true
+				}
+				if f == cl && site != nil && g.Cond == ssa.Value(site) && g.True && returnsTrueOnlyWhen(G, cas) {
+					won = true
+				}
+			}
+		}
+	}
+	if !won {
+		return false, "the timeout handler is not confined to the CAS winner"
+	}
+	return true, ""
+}
+
+// capturedAtArmTime: v is a captured variable of the callback, or a parameter of the helper whose argument at the call
+// in the callback is a captured variable.
+func capturedAtArmTime(v ssa.Value, G, cl *ssa.Function, site *ssa.Call) bool {
+	strip := func(x ssa.Value) ssa.Value {
+		if u, ok := x.(*ssa.UnOp); ok && u.Op == token.MUL {
+			return u.X
+		}
+		return x
+	}
+	v = strip(v)
+	if fv, ok := v.(*ssa.FreeVar); ok && fv.Parent() == cl {
+		return true
+	}
+	if p, ok := v.(*ssa.Parameter); ok && p.Parent() == G && site != nil {
+		for i, q := range G.Params {
+			if q == p && i < len(site.Call.Args) {
+				if fv, ok := strip(site.Call.Args[i]).(*ssa.FreeVar); ok && fv.Parent() == cl {
+					return true
+				}
+			}
+		}
+	}
+	return false
+}
+
+// returnsTrueOnlyWhen: every `return true` (or return of the CAS value) of f happens on the CAS-won edge.
+func returnsTrueOnlyWhen(f *ssa.Function, cas ssa.Instruction) bool {
+	ok := true
+	n := 0
+	for _, rs := range returnSites(f, 0) {
+		if rs.val == cas.(ssa.Value) {
+			n++
+			continue
+		}
+		b, isC := constBool(rs.val)
+		if !isC {
+			ok = false
+			continue
+		}
+		if !b {
+			continue
+		}
+		n++
+		won := false
+		for _, g := range guardsAt(rs.at.Block()) {
+			if g.Cond == cas.(ssa.Value) && g.True {
+				won = true
+			}
+		}
+		if !won {
+			ok = false
+		}
+	}
+	return ok && n >= 1
 }
 
 // sameObj: the two values denote the same object: identical SSA value, or loads of the same (structurally equal) address.
